@@ -161,6 +161,9 @@ class StateUpdater:
             read_state_awaitable=read_state_mutex,
             tracker_options=tracker_options,
         )
+        if (previous := self._workers.pop(id(remote_value), None)) is not None:
+            # registered again - don't leave the previous tracker running unowned
+            previous.stop()
         self._workers[id(remote_value)] = tracker
 
         logger.debug(
